@@ -23,6 +23,10 @@
        The position(..).unwrap() / swap_remove bookkeeping is proved by a multiset argument, not assumed.
      * C14_t_range: t_inner and t_outer of a returned track are values of closest_t at points of the cluster, hence
        (C14_t_range_binary64, through C16_closest_t_range_partial) NaN or in [-pi, pi].
+     * C14_t_not_nan: t_inner / t_outer of a returned track are not NaN (the cost function's assert has already
+       covered them), given only that the optimiser returns a vector it has evaluated.
+     * C14_fit_skeleton_total_binary64: (N1), (N2) discharged for the binary64 instance (Flocq link).
+     * C14_tinyphi_known_witness: the open finding `tinyphi` (where (N3) is false of the implementation).
    NOT PROVED (monitored on the implementation by the harness lines rel14p / rel14f / rel14v, a test):
      (N3), (N4), (V3), (V4), finiteness of the returned parameters, NaN-freedom of t_inner / t_outer; totality of
      cluster_spacepoints is the subject of C15 (cluster_terminates) and is exercised here by rel14p.
@@ -175,6 +179,27 @@ Theorem C14_fit_skeleton_total_binary64 :
   fit pts <> Panic /\ (forall k, fit pts = Err k -> k = E_noinit).
 Proof. exact fit_skeleton_total_binary64_lemma. Qed.
 Print Assumptions C14_fit_skeleton_total_binary64.
+
+(* t_inner and t_outer of a returned track are NOT NaN — no totality hypothesis: the cost function has evaluated
+   closest_t at the returned parameters for every point of the cluster (among them the template points) and its
+   assert!(!val.is_nan()) passed.  Hypotheses: (S1) the optimiser's best_param is the argument of a completed cost call
+   (argmin, not modelled), (S2) IEEE: a NaN t gives a NaN squared distance through Helix::at and norm_sqr.
+   Together with C14_t_range(_binary64): t_inner, t_outer lie in [-pi, pi]. *)
+Theorem C14_t_not_nan :
+  forall (F point : Type) (p_r p_x p_y : point -> F) (flt feq : F -> F -> bool)
+    (fcmp : F -> F -> option comparison) (fnan : F -> bool) (fadd fsub fmul : F -> F -> F)
+    (fhalf fabs : F -> F) (fzero : F)
+    (guess6 : list point -> point -> point -> point -> list F) (bump : F -> F)
+    (point_val closest : list F -> point -> F)
+    (nm : (list F -> res F) -> list (list F) -> res (option (list F))) (sd_tol_ok : bool),
+  (* S1 *) (forall (c : list F -> res F) s v, nm c s = Ok (Some v) -> exists y, c v = Ok y) ->
+  (* S2 *) (forall p q, fnan (closest p q) = true -> fnan (point_val p q) = true) ->
+  forall pts tr,
+  fit_cluster_to_helix F point p_r p_x p_y flt feq fcmp fnan fadd fsub fmul fhalf fabs fzero
+    guess6 bump point_val closest nm sd_tol_ok pts = Ok tr ->
+  fnan (tr_t_inner F tr) = false /\ fnan (tr_t_outer F tr) = false.
+Proof. exact fit_t_not_nan_lemma. Qed.
+Print Assumptions C14_t_not_nan.
 
 (* ---- OPEN FINDING `tinyphi` (harness tags rel14kf-tinyphi-*, corpus/C14/tinyphi.case) ----
    On the class recognised by Fit.tinyphi_class the numeric hypothesis (N3) is false of the implementation (it panics at
